@@ -15,6 +15,8 @@ use std::time::Duration;
 
 pub struct ThreadPool {
     id: u32,
+    /// execution this pool belongs to
+    epoch: u64,
 }
 
 #[derive(Default)]
@@ -41,7 +43,7 @@ impl Builder {
     }
     pub fn build(self) -> ThreadPool {
         let id = core::new_pool(self.name.unwrap_or_else(|| "rusty_pool_x".to_string()));
-        ThreadPool { id }
+        ThreadPool { id, epoch: core::epoch() }
     }
 }
 
@@ -53,7 +55,23 @@ impl ThreadPool {
         core::pool(self.id, |p| p.name.clone()).unwrap()
     }
 
+    /// A pool handle that survived from an earlier execution can only have travelled through
+    /// process-wide state of the code under test; it is inert here and the use is logged.
+    fn stale(&self) -> bool {
+        if self.epoch != core::epoch() {
+            if core::active() {
+                core::log(Ev::Note { what: "stale_object", a: self.id as i64, b: 0 });
+            }
+            true
+        } else {
+            false
+        }
+    }
+
     pub fn execute<F: FnOnce() + Send + 'static>(&self, task: F) {
+        if self.stale() {
+            return;
+        }
         // the visible operation: the job becomes runnable
         core::sched_point(Wait::None);
         let pool = self.id;
@@ -89,20 +107,30 @@ impl ThreadPool {
     }
 
     pub fn join(&self) {
-        Self::wait_idle(self.id, false)
+        if !self.stale() {
+            Self::wait_idle(self.id, false)
+        }
     }
     pub fn join_timeout(&self, _t: Duration) {
-        Self::wait_idle(self.id, true)
+        if !self.stale() {
+            Self::wait_idle(self.id, true)
+        }
     }
     pub fn shutdown(self) {
         drop(self)
     }
     pub fn shutdown_join(self) {
+        if self.stale() {
+            return;
+        }
         let id = self.id;
         drop(self);
         Self::wait_idle(id, false)
     }
     pub fn shutdown_join_timeout(self, _t: Duration) {
+        if self.stale() {
+            return;
+        }
         let id = self.id;
         drop(self);
         Self::wait_idle(id, true)
@@ -111,13 +139,17 @@ impl ThreadPool {
 
 impl Clone for ThreadPool {
     fn clone(&self) -> Self {
-        core::pool(self.id, |p| p.handles += 1);
-        ThreadPool { id: self.id }
+        if self.epoch == core::epoch() {
+            core::pool(self.id, |p| p.handles += 1);
+        }
+        ThreadPool { id: self.id, epoch: self.epoch }
     }
 }
 
 impl Drop for ThreadPool {
     fn drop(&mut self) {
-        core::pool(self.id, |p| p.handles -= 1);
+        if self.epoch == core::epoch() {
+            core::pool(self.id, |p| p.handles -= 1);
+        }
     }
 }
